@@ -472,7 +472,7 @@ def tie(ctx):
     for v in violations:
         firstv.setdefault(v["signature"], v)
     return {"families": fam, "violations": list(firstv.values()), "evaluations": fam["planted_pipeline"]["cases"], "distinct_nontrivial": len(distinct),
-            "rule": "generated gene databases (both builds = both strands, with/without pseudogene, SNP/ins/del/multi-substitution alleles; thorough: plus small shipped genes); planted multisets of 2-4 catalogued (major, minor) alleles in shapes two/three/four copies, one copy + whole-gene deletion, fusion (structure semantics of the CN stage: two complete copies, further copies pseudogene-free); indels flanked by >= 15 bp of read run; read length 50-250; per-copy depth 20-40; profile from a simulated two-copy reference sample; distinct by hash of the case description",
+            "rule": "generated gene databases (both builds = both strands, with/without pseudogene, SNP/ins/del/multi-substitution alleles; thorough: plus small shipped genes); planted multisets of 2-4 catalogued (major, minor) alleles in shapes two/three/four copies, one copy + whole-gene deletion, fusion (structure semantics of the CN stage: two complete copies, further copies pseudogene-free); indels flanked by >= 15 bp of read run; read length 50-250; per-copy depth 20-40; a fifth of the samples genotyped with indelpost=false; profile from a simulated two-copy reference sample; distinct by hash of the case description",
             "samples": samples, "stats": dict(stats), "all_violations": violations}
 
 
